@@ -341,10 +341,12 @@ package runtime
 
 //@ func NewChan
 //@ params eltSize cap
-//@ props C10
+//@ props C10 C03
 //@ arith int
 //@ opt init yes
 //@ requires eltSize >= 0 && eltSize < 1<<16 && cap < 1<<28
+//@ panics_iff C03 negative-make: cap < 0
+//@ ensures_panic C03 msg: panicmsg() == "makechan: size out of range"
 //@ ensures C10 fresh: result != nil && result.len == 0 && result.getp == 0 && !result.close
 //@ ensures C10 cap: (cap > 0 ==> result.cap == cap && valid(result.data, cap*eltSize)) && (cap <= 0 ==> result.cap == 0)
 //@ modifies nothing
